@@ -902,3 +902,102 @@ Proof.
   - destruct (is_null _); [apply bind_no_oof; [apply charge_no_oof|intros _]|]; apply ret_no_oof.
   - apply shown_enum_no_oof.
 Qed.
+
+(* ------------------------------------------------------------ histories with UseRegistry *)
+
+Definition cache_coherent (st : enc_state) : Prop :=
+  match es_cache st with Some (sc', _) => sc' = es_reg st | None => True end.
+
+Definition op_loadable (c : cfg) (o : enc_op) : Prop :=
+  match o with OpUse reg => s_load reg <= c_limit0 c | OpEncode _ _ => True end.
+
+Lemma with_schema_coherent : forall sc c, cache_coherent (mkEnc sc (with_schema sc c)).
+Proof. intros sc [b|]; reflexivity. Qed.
+
+Lemma encode_e_reg : forall ffmt c fuel id v st,
+  es_reg (snd (encode_e ffmt c fuel id v st)) = es_reg st.
+Proof.
+  intros ffmt c fuel id v [reg [[sc' b]|]]; unfold encode_e; simpl.
+  - destruct (encode ffmt c sc' fuel id v (Some b)); reflexivity.
+  - destruct (encode ffmt c reg fuel id v None); reflexivity.
+Qed.
+
+Lemma encode_e_coherent : forall ffmt c fuel id v st,
+  cache_coherent st -> cache_coherent (snd (encode_e ffmt c fuel id v st)).
+Proof.
+  intros ffmt c fuel id v [reg [[sc' b]|]] H; unfold cache_coherent in H; unfold encode_e; simpl in *.
+  - subst sc'. destruct (encode ffmt c reg fuel id v (Some b)) as [r c']. simpl.
+    apply with_schema_coherent.
+  - destruct (encode ffmt c reg fuel id v None) as [r c']. simpl. apply with_schema_coherent.
+Qed.
+
+Lemma run_ops_coherent : forall ffmt c fuel ops st,
+  cache_coherent st -> cache_coherent (run_ops ffmt c true fuel ops st).
+Proof.
+  intros ffmt c fuel. induction ops as [|o r IH]; intros st H; [assumption|].
+  simpl. apply IH. destruct o as [id v|reg]; simpl.
+  - now apply encode_e_coherent.
+  - exact I.
+Qed.
+
+(* the registry an encoder ends up with is loadable if the first one and all later ones are *)
+Lemma run_ops_reg_loadable : forall ffmt c fuel ops st,
+  s_load (es_reg st) <= c_limit0 c -> Forall (op_loadable c) ops ->
+  s_load (es_reg (run_ops ffmt c true fuel ops st)) <= c_limit0 c.
+Proof.
+  intros ffmt c fuel. induction ops as [|o r IH]; intros st H Hops; [assumption|].
+  inversion Hops; subst. simpl. apply IH; [|assumption].
+  destruct o as [id v|reg]; simpl.
+  - now rewrite encode_e_reg.
+  - assumption.
+Qed.
+
+Lemma encode_e_coherent_fresh : forall ffmt c fuel id v st,
+  c_fixed c = true -> s_load (es_reg st) <= c_limit0 c -> cache_coherent st ->
+  fst (encode_e ffmt c fuel id v st) = fst (encode ffmt c (es_reg st) fuel id v None).
+Proof.
+  intros ffmt c fuel id v [reg [[sc' b]|]] Hf Hl H; unfold cache_coherent in H; unfold encode_e; simpl in *.
+  - subst sc'. rewrite <- (encode_state_irrelevant ffmt c reg fuel id v (Some b) Hf Hl).
+    destruct (encode ffmt c reg fuel id v (Some b)); reflexivity.
+  - destruct (encode ffmt c reg fuel id v None); reflexivity.
+Qed.
+
+(* Encode after ANY history of Encode and UseRegistry calls on one encoder writes what a fresh
+   encoder pointed at the same (current) registry writes *)
+Theorem encode_history_independent_reg : forall ffmt c fuel reg0 ops id v,
+  c_fixed c = true -> s_load reg0 <= c_limit0 c -> Forall (op_loadable c) ops ->
+  let st := run_ops ffmt c true fuel ops (enc_init reg0) in
+  fst (encode_e ffmt c fuel id v st) = fst (encode ffmt c (es_reg st) fuel id v None).
+Proof.
+  intros ffmt c fuel reg0 ops id v Hf Hl Hops st. apply encode_e_coherent_fresh; [assumption| |].
+  - apply run_ops_reg_loadable; assumption.
+  - apply run_ops_coherent. exact I.
+Qed.
+
+(* ---- UseRegistry keeping the cached nodes: schema revision with a renamed field *)
+Definition reg_v1 : schema :=
+  mkSchema [(1, NStruct 0 0 56 [mkField [107; 101; 121] 4 65535 (FSlot 0 (TUint 8) 0 RNull 32 24 0)])] 100.   (* key *)
+Definition reg_v2 : schema :=
+  mkSchema [(1, NStruct 0 0 56 [mkField [110; 97; 109; 101] 5 65535 (FSlot 0 (TUint 8) 0 RNull 32 24 0)])] 100. (* name *)
+Definition reg_empty : schema := mkSchema [] 8.
+
+Example encode_history_independent_reg_refuted :
+  exists ops id v,
+    let st := run_ops no_floats cfg_fixed false 5 ops (enc_init reg_v1) in
+    fst (encode_e no_floats cfg_fixed 5 id v st) <> fst (encode no_floats cfg_fixed (es_reg st) 5 id v None).
+Proof.
+  exists [OpEncode 1 (RStruct [7] []); OpUse reg_v2], 1, (RStruct [7] []). vm_compute. discriminate.
+Qed.
+
+(* ... and a type the new registry does not know is still rendered *)
+Example use_registry_unknown_type_refuted :
+  let st := run_ops no_floats cfg_fixed false 5 [OpEncode 1 (RStruct [7] []); OpUse reg_empty] (enc_init reg_v1) in
+  fst (encode_e no_floats cfg_fixed 5 1 (RStruct [7] []) st) = Ok [40; 107; 101; 121; 32; 61; 32; 55; 41]   (* (key = 7) *)
+  /\ fst (encode no_floats cfg_fixed reg_empty 5 1 (RStruct [7] []) None) = Err ENotFound.
+Proof. split; vm_compute; reflexivity. Qed.
+
+(* with the invalidation: the same history gives the new name / the error *)
+Example use_registry_example :
+  let st := run_ops no_floats cfg_fixed true 5 [OpEncode 1 (RStruct [7] []); OpUse reg_v2] (enc_init reg_v1) in
+  fst (encode_e no_floats cfg_fixed 5 1 (RStruct [7] []) st) = Ok [40; 110; 97; 109; 101; 32; 61; 32; 55; 41].  (* (name = 7) *)
+Proof. vm_compute. reflexivity. Qed.
